@@ -2,7 +2,10 @@ module verifharness
 
 go 1.22
 
-require github.com/jech/storrent v0.0.0
+require (
+	bazil.org/fuse v0.0.0-20230120002735-62a210ff1fd5
+	github.com/jech/storrent v0.0.0
+)
 
 require (
 	github.com/zeebo/bencode v1.0.0 // indirect
